@@ -16,7 +16,8 @@ B2S(b) == IF b THEN "1" ELSE "0"
 Shape(kind, np, nd, kw, kwdef, va, vk) ==
   LET pos == SubSeq(<<"p","q">>, 1, np) IN
   [ Base EXCEPT !.sel = <<"m", kind \o "_" \o ToString(np) \o ToString(nd) \o B2S(kw) \o B2S(kwdef) \o B2S(va) \o B2S(vk)>>,
-                !.kind = kind, !.pos = pos, !.npd = nd,
+                !.kind = kind,
+                !.api = IF va THEN "external" ELSE IF vk THEN "register" ELSE "configurable", !.pos = pos, !.npd = nd,
                 !.kwo = IF kw THEN <<"k">> ELSE <<>>,
                 !.kwd = IF kw /\ kwdef THEN {"k"} ELSE {},
                 !.va = va, !.vk = vk,
@@ -43,7 +44,10 @@ ReqShapes == {
   ReqShape("r2", "fn",  <<"p","q">>, 1, <<"k">>, {"k"}, FALSE, FALSE, {<<"q", Req>>, <<"k", Req>>}),
   ReqShape("r3", "cls", <<"p","q">>, 2, <<>>, {}, TRUE, TRUE, {<<"p", D("p")>>, <<"q", Req>>}),
   ReqShape("r4", "fn",  <<"p">>, 0, <<"k">>, {}, TRUE, TRUE, {}),
-  ReqShape("r5", "cls", <<"p","q">>, 1, <<"k">>, {"k"}, FALSE, TRUE, {<<"q", D("q")>>, <<"k", Req>>}) }
+  ReqShape("r5", "cls", <<"p","q">>, 1, <<"k">>, {"k"}, FALSE, TRUE, {<<"q", D("q")>>, <<"k", Req>>}),
+  [ReqShape("r6", "cls", <<"p","q">>, 1, <<"k">>, {"k"}, FALSE, FALSE, {<<"q", Req>>, <<"k", Req>>}) EXCEPT !.api = "external"],
+  [ReqShape("r7", "cls", <<"p">>, 1, <<>>, {}, TRUE, TRUE, {<<"p", Req>>}) EXCEPT !.api = "register"],
+  [ReqShape("r8", "fn", <<"p","q">>, 1, <<>>, {}, FALSE, FALSE, {<<"q", Req>>}) EXCEPT !.api = "external"] }
 ReqRegs == { {c} : c \in ReqShapes }
 ReqRegsQuick == { {c} : c \in { x \in ReqShapes : x.sel[2] \in {"r2", "r3"} } }
 
